@@ -46,8 +46,8 @@ theorem body_bytes_length (b : Body) (h : BodyWF b) :
   cases b with
   | data d =>
     simp only [BodyWF] at h
-    simp only [Body.bytes, Body.plen]
-    split <;> omega
+    have hne : d.length ≠ 0 := by omega
+    simp [Body.bytes, Body.plen, hne]
   | back p => simp [Body.bytes, Body.plen, be_length]
 
 theorem encodeRec_length (r : FRec) (h : BodyWF r.body) : (encodeRec r).length = r.len := by
@@ -126,9 +126,8 @@ theorem parseRec_encode (r : FRec) (more : Bytes) (tloc : Nat) (h : RecWF tloc r
     simp only [encodeRec, Body.plen, Body.bytes, List.append_assoc, rd8 _ _ h1, rd8 _ _ h2,
       rd8 _ _ h3, rd8 _ _ htl, rd2 _ _ hz, rd8 _ _ hb.2]
     rw [if_neg (by omega), if_neg (by omega)]
-    trace_state
-    simp [FRec.len, Body.plen, take_append_eq, hb.1]
-    omega
+    have hne : d.length ≠ 0 := by omega
+    simp [FRec.len, Body.plen, hne]
   | back p =>
     simp only [BodyWF] at hb
     have hz : (0 : Nat) < 2 ^ 16 := by omega
